@@ -300,7 +300,7 @@ def run_decode(res, cases):
                 exp = '(DOk %s %s %s)' % (qN(got[0]), qdata(got[1]) if got[1] is not None else '(DJson %s)' % qJ(None), qbool(got[2]))
             except (KeyError, TypeError):
                 exp = 'DErr'
-        terms.append(qpair(qwire(w), '(%s : list (text * lres J0))' % qlist(lt), '(%s : list (N * option N))' % qlist(dt), exp))
+        terms.append(qpair(qwire(w), qlist(lt), qlist(dt), exp))
         kept.append(case | dict(impl=got))
     return terms, kept
 
@@ -315,8 +315,8 @@ def run(ctx):
     dec = gen_decode_cases(ctx)
     t1, k1 = run_encode(res, enc)
     t2, k2 = run_decode(res, dec)
-    b1, e1 = vlib.model_mismatches(HEADER, t1, 'check_enc', shard=300)
-    b2, e2 = vlib.model_mismatches(HEADER, t2, 'check_dec', shard=500)
+    b1, e1 = vlib.model_mismatches(HEADER, t1, 'check_enc', shard=300, ctype='N * pdata J0 * list bool * option (list wire)')
+    b2, e2 = vlib.model_mismatches(HEADER, t2, 'check_dec', shard=500, ctype='wire * list (text * lres J0) * list (N * option N) * dres J0')
     res.errors += e1 + e2
     for b in b1[:50]:
         res.mismatches.append(dict(suite='encode_seq', case=k1[b]))
